@@ -3,6 +3,8 @@
 package main
 
 import (
+	"crypto/hmac"
+	"crypto/md5"
 	"encoding/base64"
 	"hash"
 	"strconv"
@@ -46,6 +48,9 @@ const verifB64URLAlphabet = "ABCDEFGHIJKLMNOPQRSTUVWXYZabcdefghijklmnopqrstuvwxy
 func harnessC12APIKey(tail int) {
 	globals.apiKeySalt = []byte("0123456789abcdef0123456789abcdef")
 	s := verifNondetString("head", 32-tail, 32-tail, verifB64URLAlphabet) + verifNondetString("tail", tail, tail, "")
+	if !verifIsSymbolicEngine() {
+		s = verifNativeResignKey(s)
+	}
 	valid, root := checkAPIKey(s)
 	if valid {
 		data, err := base64.URLEncoding.DecodeString(s)
@@ -64,6 +69,28 @@ func harnessC12APIKey(tail int) {
 		verifAssert(!root, "invalid-key-is-never-root")
 	}
 	verifReach("end")
+}
+
+// Native replay: the solver's key carries a signature of the *uninterpreted* MAC. If that signature is the
+// model's MAC of the key's data under the server's salt - or under the empty salt, the other key a faulty
+// checker might try - replace it by the real HMAC-MD5 under the same salt, so that the real code is shown the
+// same situation. The model's MAC values come from the replay vector in the order the engine applied them.
+func verifNativeResignKey(s string) string {
+	data, err := base64.URLEncoding.DecodeString(s)
+	if err != nil || len(data) != 24 {
+		return s
+	}
+	for _, salt := range [][]byte{globals.apiKeySalt, nil} {
+		m := &verifMacT{key: salt, n: 16}
+		m.Write(data[:8])
+		if string(m.Sum(nil)) == string(data[8:]) {
+			h := hmac.New(md5.New, salt)
+			h.Write(data[:8])
+			copy(data[8:], h.Sum(nil))
+			return base64.URLEncoding.EncodeToString(data)
+		}
+	}
+	return s
 }
 
 func Harness_C12_apikey_32()       { harnessC12APIKey(0) }
